@@ -140,8 +140,13 @@ func genBlocking(w *bufio.Writer, root string, seed uint64, n, ops int) {
 		run.Reset()
 		fmt.Fprintf(w, "# hist %d seed=%d flavor=blocking\n", h, seed)
 		exec := func(line string) string {
-			lhs, res := run.Exec(line)
+			lhs, res, ok := execWithDeadline(run, line)
 			fmt.Fprintf(w, "%s => %s\n", lhs, res)
+			if !ok {
+				// the call never returned (e.g. a Publish stuck in its notification): leave, goroutines leak
+				w.Flush()
+				os.Exit(0)
+			}
 			return res
 		}
 		roll := r.pick([]int64{100, 200, 400, 1 << 20})
@@ -224,7 +229,26 @@ func genBlocking(w *bufio.Writer, root string, seed uint64, n, ops int) {
 			}
 		}
 
+		// in some histories: once, a long quiet period (a waiter must stay parked however long nothing happens;
+		// a timed re-probe would show only after its period)
+		quietAt := -1
+		if r.chance(20) {
+			quietAt = ops/2 + r.intn(ops/2)
+		}
 		for step := 0; step < ops; step++ {
+			if step == quietAt {
+				blockedNow := false
+				for _, bw := range c.waiters {
+					if bw.result() == "" {
+						blockedNow = true
+					}
+				}
+				if blockedNow {
+					time.Sleep(1200 * time.Millisecond)
+					fmt.Fprintf(w, "bl.quiet 1200 => ok\n")
+					c.report()
+				}
+			}
 			switch x := r.intn(20); {
 			case x < 8 && len(c.waiters) < 8:
 				spawnWait()
@@ -408,7 +432,21 @@ func genBlockStorm(w *bufio.Writer, root string, seed uint64, n, ops int) {
 			x.mu.Unlock()
 			x.cancel()
 		}
-		pwg.Wait()
+		pdone := make(chan struct{})
+		go func() { pwg.Wait(); close(pdone) }()
+		select {
+		case <-pdone:
+		case <-time.After(20 * time.Second):
+			// a Publish that never returns (it writes the log and then notifies): a finding, and the end of this process
+			pubMu.Lock()
+			for _, l := range pubLines {
+				fmt.Fprintln(w, l)
+			}
+			pubMu.Unlock()
+			fmt.Fprintf(w, "bs.pub => err hang\n")
+			w.Flush()
+			os.Exit(0)
+		}
 		// settle: every waiter whose offset was passed has to come back by itself (up to 3 s each before it is reported)
 		deadline := time.Now().Add(3 * time.Second)
 		for time.Now().Before(deadline) {
